@@ -16,9 +16,16 @@ Init == l = 1 /\ members = <<>> /\ taint = ""
 \* The harness aligns the emissions of both runs by a key that does not depend on caller-derived bytes (media number, RTX original
 \* number, FEC base + mask); emissions that only one run produced (asynchronous delivery cut off) are counted in `unpaired`
 \* and not compared.
-Accept(e) == e.a # "cmp" \/ e.fresh = e.reused
+\* `alien` = emissions of the reused run under a key the fresh run never produced.  One that carries the values the harness
+\* writes into a header object it reuses (sequence number 0xDEAD, timestamp 0x7EADBEEF, CSRC 0x6EEEEEEE) was built from the
+\* caller's memory after the call had returned - the key itself is caller-derived then, which is why it found no partner.
+Marked(x) == /\ "seq" \in DOMAIN x /\ "ts" \in DOMAIN x
+             /\ (x.seq = 57005 \/ x.ts = 2125315823 \/ ("csrc" \in DOMAIN x /\ 1861152494 \in Range(x.csrc)))
+Accept(e) == e.a # "cmp" \/ (e.fresh = e.reused /\ \A i \in DOMAIN e.alien : ~Marked(e.alien[i]))
 \* first differing emission, for the diagnostic
-Diff(e) == IF Len(e.fresh) # Len(e.reused) THEN <<"count", Len(e.fresh), Len(e.reused)>>
+Diff(e) == IF \E i \in DOMAIN e.alien : Marked(e.alien[i])
+           THEN <<"overwritten header emitted", e.alien[CHOOSE i \in DOMAIN e.alien : Marked(e.alien[i])]>>
+           ELSE IF Len(e.fresh) # Len(e.reused) THEN <<"count", Len(e.fresh), Len(e.reused)>>
            ELSE LET i == CHOOSE j \in DOMAIN e.fresh : e.fresh[j] # e.reused[j] IN <<"item", e.fresh[i], e.reused[i]>>
 NewDevs(e) == IF Has("flexfec") THEN {"C13.FlexFecRetainsBatch"} ELSE {}
 Next ==
